@@ -7,7 +7,7 @@ import MdIt.Lemmas.C10DocPara
 import MdIt.Lemmas.C10DocQuote
 import MdIt.Lemmas.C10DocList
 
-namespace MdIt.Block
+namespace MdIt.Block.LE
 open MdIt.Lines (LineOffset)
 variable {ρ : Nat → Nat → Prop} {G : Geo}
 
@@ -154,4 +154,4 @@ theorem tokenize_sim (cfg : Cfg) (C : Ctx ρ G) {f₁ f₂ : Nat} (hf : f₁ ≤
     (S : SRel ρ G s₁ s₂) : FRel (SRel ρ G) (tokenize cfg f₁ s₁) (tokenize cfg f₂ s₂) :=
   (engine_sim cfg C f₁ f₂ hf).1 s₁ s₂ S
 
-end MdIt.Block
+end MdIt.Block.LE
